@@ -146,8 +146,10 @@ def worker_loop(
                         )
                         msg.ack()  # acknowledge to remove the message if applicable
                         continue  # skip processing this message
-                    data = msg.data or NoDataType()
-                    context = msg.context or ContextType()
+                    # Only a missing (None) field gets a default: an empty data or
+                    # context collection is falsy but is the job's real input.
+                    data = msg.data if msg.data is not None else NoDataType()
+                    context = msg.context if msg.context is not None else ContextType()
 
                     worker_logger.debug(
                         f"Worker {job_id} has data={data}, context={context}, pcfg={pcfg}"
